@@ -697,6 +697,8 @@ void Exec::run_call(int idx) {
       ts.divisor = c.dp;
       ts.log2 = (uint32_t)c.p[1];
     }
+    sim_fctx.cur_call[fslot] = idx;  // a fault while the twin's table is built or deleted belongs to this call too
+    sim_fctx.cur_op[fslot] = c.op;
     void* t = table_create(ts);
     if (instance_twin) sim_set_lib_fill(old_fill, old_seed);
     Program Q;  // a one-call program view for op_invoke
@@ -707,8 +709,8 @@ void Exec::run_call(int idx) {
     sim_fctx.cur_call[fslot] = idx;
     sim_fctx.cur_op[fslot] = tc.op;
     op_invoke(P, tc, mods, ttabs, twin_copy.data(), nullptr);
-    sim_fctx.cur_call[fslot] = -1;
     table_delete(ts, t);
+    sim_fctx.cur_call[fslot] = -1;
     n_twin++;
     for (int k = 0; k < oi.nslots; ++k)
       if ((oi.roles[k] == 'o' || oi.roles[k] == 'x') && memcmp(twin_copy[k], p[k], bytes[c.s[k]]) != 0) {
